@@ -213,6 +213,40 @@ def reconnect_scenarios(ctx):
     return scs
 
 
+def skip_scenarios(ctx):
+    """`run_forever(skip_utf8_validation=True)`: a close frame whose reason is not UTF-8 is a legal ending then; on_close
+    must still be called once, last, with the code.  Real runs + the oracle of `skip_extra` (the model's arguments are
+    byte strings; how an undecodable reason is rendered as str is not modelled)."""
+    scs = []
+    for body in ("03e8fffe", "03e8c3", "0fa0e282", "03e8" + "6f6b", "03e9"):
+        for word in ((), ("t",), ("t", "p")):
+            sc = {"cbs": appsim.ALL, "skip": True, "runs": [[["E", c13.history(word) + [[50, 0, "c", body]]]]], "horizon": 40 * TPS,
+                  "tag": f"skip-utf8|close:{body}", "kind": "skip-utf8"}
+            scs.append(sc)
+            scs.append(dict(sc, runs=[sc["runs"][0], [["E", [[60, 0, "c", "03e8"]]]]], tag=sc["tag"] + "|rerun"))
+    return scs
+
+
+def skip_extra(ctx, sc, r):
+    extra(ctx, sc, r)
+    n = appcheck.size_of(sc)
+    runs = r["trace"].split(";ret:") if False else None
+    items = r["trace"].split(";") if r["trace"] else []
+    cbs = [it.partition(":")[2] for it in items if it.partition(":")[2].startswith("cb:")]
+    nruns = len(sc["runs"])
+    closes = [c for c in cbs if c.startswith("cb:on_close")]
+    if len(closes) != nruns:
+        ctx.violate("on-close-once", "not-called@skip-utf8-validation" if len(closes) < nruns else "repeated@skip-utf8-validation", sc,
+                    f"on_close once per run ({nruns})", f"{len(closes)} calls; trace …{r['trace'][-300:]}", size=n)
+        return
+    body = bytes.fromhex(sc["runs"][0][0][1][-1][3])
+    code = int.from_bytes(body[:2], "big")
+    if not closes[0].startswith(f"cb:on_close:i{code},"):
+        ctx.violate("close-args", "wrong-code@skip-utf8-validation", sc, f"on_close({code}, <reason>)", closes[0], size=n)
+    if any(c.startswith("cb:on_error") for c in cbs):
+        ctx.violate("return-value", "error-reported-for-a-close-frame-ending@skip-utf8-validation", sc, "no error report", str(cbs)[-200:], size=n)
+
+
 def closer_scenarios(ctx):
     """second-thread close(): at scripted ticks with both tie orders, and at executed lines of the main loop."""
     scs = []
@@ -267,6 +301,7 @@ def run(ctx):
     appcheck.evaluate(ctx, "C14", scenarios(ctx), cls_of=cls_of, extra_check=extra)
     # reconnecting runs: model correspondence + the resource oracles of `extra` ("C14/resources" matches no Spec tag)
     appcheck.evaluate(ctx, "C14/resources", reconnect_scenarios(ctx), cls_of=cls_of, extra_check=extra)
+    appcheck.evaluate(ctx, "C14/skip", skip_scenarios(ctx), cls_of=cls_of, extra_check=skip_extra, model=False)
     appcheck.evaluate(ctx, "C14", closer_scenarios(ctx), cls_of=cls_of, extra_check=closer_extra, model=False)
 
     def lines_of(b):
